@@ -328,3 +328,42 @@ func defaultMonitorFactory(names []string, st *mon.Stats) []mon.Monitor {
 var monitorCtors = map[string]func(st *mon.Stats) mon.Monitor{}
 
 func init() { sched.MonitorFactory = defaultMonitorFactory }
+
+// windowAlphabet is the S2 alphabet over node set nodes: every ordered gossip
+// pair (plain, truncated to one event, eager response lost), a submission per
+// node, and optionally a join / leave request.
+func windowAlphabet(nodes []int, join, leave int) []sched.Action {
+	var a []sched.Action
+	for _, i := range nodes {
+		for _, j := range nodes {
+			if i != j {
+				a = append(a, sched.Action{K: "G", A: i, B: j})
+			}
+		}
+	}
+	for _, i := range nodes {
+		for _, j := range nodes {
+			if i != j && (i+j)%2 == 1 {
+				a = append(a, sched.Action{K: "G", A: i, B: j, Lim: 1})
+			}
+		}
+		a = append(a, sched.Action{K: "T", A: i})
+	}
+	if leave >= 0 {
+		a = append(a, sched.Action{K: "L", A: leave})
+	}
+	_ = join
+	return a
+}
+
+// s2Items: for every window start w, all sequences of length k over the
+// window alphabet (sharded by the first action), then the fair suffix.
+func s2Items(name string, windows []int, k int, nalpha int, mons []string, suffix int) []sched.Item {
+	var items []sched.Item
+	for _, w := range windows {
+		for first := 0; first < nalpha; first++ {
+			items = append(items, sched.Item{Scenario: name, Mode: "s2", Cut: w, Depth: k, Prefix: []int{first}, Mons: mons, Suffix: suffix})
+		}
+	}
+	return items
+}
